@@ -5,6 +5,7 @@
 //! Each witness prints one line: `REPRODUCED <name> <concrete failing input>` (the real code violates the
 //! property on that input) or `NOT-REPRODUCED <name> <what was tried>`.  A witness never decides that a
 //! property HOLDS — that is the verifier's job — it only supplies concrete failing inputs for replay.
+mod c05;
 mod c10;
 mod c12;
 mod c17;
@@ -20,6 +21,7 @@ pub type W = (&'static str, fn() -> (bool, String));
 fn main() {
     let name = std::env::args().nth(1).unwrap_or_default();
     let mut all: Vec<W> = Vec::new();
+    all.extend(c05::witnesses());
     all.extend(c10::witnesses());
     all.extend(c12::witnesses());
     all.extend(c17::witnesses());
